@@ -310,6 +310,10 @@ var pastCrashers = [][3]string{
 	{"s", "try { echo 1; } catch (Exception $e - 1) { }\n", ""},
 	{"s", "$b = $a + ; echo 1;", "run"},
 	{"s", "<1", "run"},
+	{"s", "class K0 { public $p = $7; }\n$o = new K0(); echo 'x';\n", "run"},
+	{"s", "class K0 { public $p = 1; } $n = K0 { p: }; echo $n->p;", "run"},
+	{"s", "$i = 0; while ($i < 3", "run"},
+	{"s", "echo match (2) { 1 => 'a', default =>", "run"},
 	{"s", "$arr = [1]; echo $arr[", "run"},
 	{"s", "$a = 1;\nse {\n  \"k\": 1\n}\n", "run"},
 	{"t", "<?php\n#[Command(name: , description: \"x\")]\nclass A {}\n", ""},
